@@ -99,7 +99,10 @@ def snmp_crypto_check(context):
     """  # noqa: E501
 
     if context.call_function_name_qual == "pysnmp.hlapi.UsmUserData":
-        if context.call_args_count < 3:
+        kwargs = {k.arg for k in context.node.keywords}
+        has_auth = context.call_args_count > 1 or "authKey" in kwargs
+        has_priv = context.call_args_count > 2 or "privKey" in kwargs
+        if not (has_auth and has_priv):
             return bandit.Issue(
                 severity=bandit.MEDIUM,
                 confidence=bandit.HIGH,
